@@ -35,7 +35,7 @@ func main() {
 		Level: "exploration",
 		Rule: "real martian.Proxy per case; (1) gate family: 1-3 connections parked by harness gates at one of six progress points each (idle, mid request head, inside request modifier, " +
 			"during round trip, inside response modifier, response being written into a full 16 KiB pipe), Close() started, Closing() observed, parked exchanges released one at a time in every order " +
-			"(all assignments x orders for 1-2 connections in quick, also for 3 in thorough), late connections dialled during and after shutdown; exchange shapes (GET, pipelined GET+GET, POST with a body streamed at once or arriving late, failing round trip => 502, small response, origin body stalling half way) swept over every in-flight point and drawn by PRNG elsewhere; slow-close variants; a loopback-TCP sample with 2-4 MiB responses read slowly; cases with SetTimeout(200 ms) whose exchanges stay parked beyond it; cases that keep the proxy's own http.Transport with cold upstream connections to a harness origin; mid-head also on a pipelined second request; (2) hook family: a handler held at " +
+			"(all assignments x orders for 1-2 connections in quick, also for 3 in thorough), late connections dialled during and after shutdown; exchange shapes (GET, pipelined GET+GET, POST with a body streamed at once or arriving late, failing round trip => 502, small response, origin body stalling half way) swept over every in-flight point and drawn by PRNG elsewhere; slow-close variants; a loopback-TCP sample with 2-4 MiB responses read slowly; cases with SetTimeout(200 ms) whose exchanges stay parked beyond it; cases that keep the proxy's own http.Transport with cold upstream connections to a harness origin; mid-head also on a pipelined second request; a slice of exchanges inside MITM'd (TLS) tunnels where a close-delimited response must end with close_notify; (2) hook family: a handler held at " +
 			"proxy.handleLoop.beforeRegister across Close; (3) accept-vs-Close races: 2-8 connections dialled in a tight loop while Close runs, PRNG delays at the hook, in-memory and loopback TCP, under the race detector. " +
 			"A class is a (point assignment, release order) tuple executed with its oracle, a hook placement, or a distinct accept/close interleaving observed (hook position relative to Closing/Close-return x connection outcome)",
 		Assumptions: []string{
@@ -1407,7 +1407,7 @@ func runGates(r *vh.Run, c ccase, budget *tunx.Budget) {
 	}
 
 	w.startClose()
-	if !w.setup("Closing() becomes true", w.p.Closing) {
+	if !w.setup("Closing() becomes true", func() bool { return w.p.Closing() || w.returned() }) {
 		return
 	}
 	if c.TimeoutMS > 0 {
@@ -1799,7 +1799,7 @@ func runHook(r *vh.Run, c ccase, budget *tunx.Budget) {
 		return
 	}
 	w.startClose()
-	if !w.setup("Closing() becomes true", w.p.Closing) {
+	if !w.setup("Closing() becomes true", func() bool { return w.p.Closing() || w.returned() }) {
 		close(hookGate)
 		return
 	}
